@@ -2,6 +2,10 @@
 //! Correspondence: Engine::check_network_request(..).rewritten_url vs the Gallina
 //! `rewritten_url` (C14_Model.v) on the same (names, url).  Oracle: an independent Rust
 //! re-statement of the L0 split/filter/join description.
+//! Second loop: removeparam rules with domain=d1|d2|.. (indexed once per listed domain when neither
+//! pattern nor parameter name gives a token), loaded in batch and through add_filter after rules
+//! that already sit in the buckets of those domains, queried from every listed domain, a host
+//! below one, and unlisted hosts.
 use adblock::filters::network::{NetworkFilter, NetworkMatchable};
 use adblock::regex_manager::RegexManager;
 use adblock::request::Request;
@@ -162,9 +166,12 @@ fn reference(names: &[String], url: &str) -> Option<String> {
 }
 
 /// How the rules reach the matcher: 0 = Engine::from_rules (optimised), 1 = unoptimised engine,
-/// 2 = Blocker::new + explicit optimize() (twice), 3 = empty Blocker + add_filter one by one + optimize().
-fn run(rules: &[String], req: &Request, mode: usize) -> (bool, Option<String>) {
+/// 2 = Blocker::new + explicit optimize() (twice), 3 = empty Blocker + add_filter one by one + optimize(),
+/// 4 = empty Blocker + add_filter one by one in the order of `rules` (no optimize),
+/// 5 = Blocker::new on the first `batch` rules + add_filter for the rest, in the order of `rules`.
+fn run(rules: &[String], req: &Request, mode: usize, batch: usize) -> (bool, Option<String>) {
     use adblock::blocker::{Blocker, BlockerOptions};
+    use adblock::filters::network::NetworkFilterMaskHelper;
     match mode {
         0 => { let r = Engine::from_rules(rules.iter(), Default::default()).check_network_request(req); (r.important, r.rewritten_url) }
         1 => { let r = Engine::from_rules_parametrised(rules.iter(), Default::default(), true, false).check_network_request(req); (r.important, r.rewritten_url) }
@@ -172,11 +179,13 @@ fn run(rules: &[String], req: &Request, mode: usize) -> (bool, Option<String>) {
             let fs: Vec<NetworkFilter> = rules.iter().filter_map(|l| implrun::net::parse_net(l)).collect();
             let rs = adblock::resources::ResourceStorage::default();
             let mut b = if mode == 2 { Blocker::new(fs, &BlockerOptions { enable_optimizations: false }) } else {
-                let mut b = Blocker::new(vec![], &BlockerOptions { enable_optimizations: false });
-                for f in fs { use adblock::filters::network::NetworkFilterMaskHelper; if !f.is_badfilter() { let _ = b.add_filter(f); } }
+                // `batch` counts lines; every generated line of modes 4/5 parses, so it counts rules as well
+                let k = if mode == 5 { batch.min(fs.len()) } else { 0 };
+                let mut b = Blocker::new(fs[..k].to_vec(), &BlockerOptions { enable_optimizations: false });
+                for f in fs[k..].iter().cloned() { if !f.is_badfilter() { let _ = b.add_filter(f); } }
                 b
             };
-            b.optimize();
+            if mode == 2 || mode == 3 { b.optimize(); }
             if mode == 2 { b.optimize(); }
             let r = b.check(req, &rs);
             (r.important, r.rewritten_url)
@@ -184,9 +193,121 @@ fn run(rules: &[String], req: &Request, mode: usize) -> (bool, Option<String>) {
     }
 }
 
-fn eval(rules: &[String], url: &str, src: &str, ty: &str, mode: usize) -> Option<(Vec<String>, bool, Option<String>, String)> {
+const MODES: [&str; 6] = ["mode_engine_optimized", "mode_engine_plain", "mode_blocker_optimize_twice", "mode_add_filter_then_optimize", "mode_add_filter_in_order", "mode_batch_prefix_then_add_filter"];
+
+// ------------------------------------------------------------------ removeparam rules with domain=d1|d2|...
+const DDOMS: &[&str] = &["a.com", "b.com", "sub.a.com", "example.com", "foo.com", "x.net", "c.org"];
+/// parameter names: one-character names, `a_b` and `u-1` give no token (tokens need two characters), so a
+/// pattern-less rule carrying them is indexed once per listed domain; the others are indexed by their token
+const DPARAMS: &[&str] = &["a", "b", "q", "x", "a_b", "u-1", "a", "b", "id", "utm", "ref", "utm_source"];
+/// patterns without a token (per-domain dispatch applies) and with one
+const DPATS_NO_TOKEN: &[&str] = &["", "", "", "*", "?", "/a?", "=", "-"];
+const DPATS_TOKEN: &[&str] = &["||foo.com^", "/track", "||ads.net/pixel", "/pixel?"];
+const DHOSTS: &[&str] = &["foo.com", "ads.net", "example.com", "a.com"];
+
+fn domain_list(r: &mut Rng, lo: usize, hi: usize) -> Vec<String> {
+    let mut v: Vec<String> = vec![];
+    let n = r.range(lo, hi);
+    while v.len() < n {
+        let d = r.pick(DDOMS).to_string();
+        if !v.contains(&d) { v.push(d); }
+    }
+    v
+}
+
+/// does the line carry a domain= option naming several domains
+fn has_domain_list(l: &str) -> bool {
+    l.split("domain=").nth(1).map_or(false, |d| d.split(',').next().unwrap_or("").contains('|'))
+}
+
+struct DomainCase {
+    /// in loading order
+    rules: Vec<String>,
+    /// number of leading rules that are loaded first (the occupants) when the order is occupants-first
+    occupants: usize,
+    /// listed domains of the multi-domain removeparam rules
+    listed: Vec<Vec<String>>,
+    order: &'static str,
+}
+
+fn gen_domain_case(r: &mut Rng) -> DomainCase {
+    // rules that sit in the buckets of the domains before the rule under test arrives
+    let mut occ: Vec<String> = vec![];
+    for _ in 0..r.range(1, 4) {
+        let d = domain_list(r, 1, 2).join("|");
+        occ.push(match r.below(8) {
+            0 => format!("$image,domain={}", d),
+            1 => format!("$script,domain={}", d),
+            2 | 3 => format!("$removeparam={},domain={}", r.pick(DPARAMS), d),
+            4 => format!("*$removeparam={},domain={}", r.pick(DPARAMS), d),
+            5 => format!("{}$removeparam={},domain={}", r.pick(DPATS_TOKEN), r.pick(DPARAMS), d),
+            6 => format!("@@$image,domain={}", d),
+            _ => if r.chance(1, 4) { format!("$image,important,domain={}", d) } else { format!("$removeparam={}", r.pick(DPARAMS)) },
+        });
+    }
+    // the rules under test: removeparam + domain= with several domains
+    let mut tgt: Vec<String> = vec![];
+    let mut listed = vec![];
+    for _ in 0..r.range(1, 3) {
+        let mut ds = domain_list(r, 2, 4);
+        if r.chance(1, 5) && !ds.contains(&"sub.a.com".to_string()) && ds.contains(&"a.com".to_string()) {
+            ds.push("sub.a.com".into()); // a source below both: delivered from two buckets
+        }
+        let pat = if r.chance(2, 3) { r.pick(DPATS_NO_TOKEN) } else { r.pick(DPATS_TOKEN) };
+        let mut opts = vec![format!("removeparam={}", r.pick(DPARAMS))];
+        let mut dl = ds.clone();
+        if r.chance(1, 8) {
+            let k = r.below(dl.len());
+            dl[k] = format!("~{}", dl[k]); // a negated entry: no per-domain dispatch
+        }
+        opts.push(format!("domain={}", dl.join("|")));
+        if r.chance(1, 6) { opts.push(r.pick(&["xhr", "document", "~image", "script"]).to_string()); }
+        if r.chance(1, 3) { opts.reverse(); }
+        tgt.push(format!("{}${}", pat, opts.join(",")));
+        listed.push(ds);
+    }
+    let occupants = occ.len();
+    let (rules, order): (Vec<String>, &'static str) = match r.below(4) {
+        0 | 1 => (occ.into_iter().chain(tgt).collect(), "order_occupants_first"),
+        2 => (tgt.into_iter().chain(occ).collect(), "order_multi_domain_rules_first"),
+        _ => {
+            let mut v: Vec<String> = occ.into_iter().chain(tgt).collect();
+            for i in (1..v.len()).rev() { let j = r.below(i + 1); v.swap(i, j); }
+            (v, "order_shuffled")
+        }
+    };
+    DomainCase { rules, occupants, listed, order }
+}
+
+fn gen_domain_url(r: &mut Rng) -> String {
+    let mut s = format!("{}://{}/{}", r.pick(&["https", "https", "http"]), r.pick(DHOSTS), r.pick(&["", "a", "track", "pixel", "x-y/a", "track/a"]));
+    match r.below(10) {
+        0 => { s.push_str("#frag?"); s.push_str(&dquery(r)); }
+        1 => {}
+        _ => { s.push('?'); s.push_str(&dquery(r)); if r.chance(1, 5) { s.push_str("#f"); } }
+    }
+    s
+}
+
+/// 1-4 parameters, three quarters of the keys are parameter names of the rules at hand, most values non-empty
+fn dquery(r: &mut Rng) -> String {
+    let names: Vec<String> = RULE_NAMES.with(|n| n.borrow().clone());
+    let mut parts = vec![];
+    for _ in 0..r.range(1, 4) {
+        let k: &str = if !names.is_empty() && r.chance(3, 4) { &names[r.below(names.len())] } else { r.pick(KEYS) };
+        match r.below(8) {
+            0 => parts.push(k.to_string()),
+            1 => parts.push(format!("{}=", k)),
+            _ => { let v = r.pick(VALS); parts.push(format!("{}={}", k, if v == "&" { "1" } else { v })) }
+        }
+    }
+    parts.join("&")
+}
+
+fn eval(rules: &[String], url: &str, src: &str, ty: &str, mode: usize, batch: usize) -> Option<(Vec<String>, bool, Option<String>, String)> {
+    // the per-rule scan below sees the initiator: the request carries the source hostname
     let req = Request::new(url, src, ty).ok()?;
-    let (important, rewritten) = run(rules, &req, mode);
+    let (important, rewritten) = run(rules, &req, mode, batch);
     struct Res { important: bool, rewritten_url: Option<String> }
     let res = Res { important, rewritten_url: rewritten };
     let mut names = vec![];
@@ -214,7 +335,7 @@ fn main() {
         let rp = &v["replay"];
         let rules: Vec<String> = rp["rules"].as_array().unwrap().iter().map(|x| x.as_str().unwrap().to_string()).collect();
         let url = rp["url"].as_str().unwrap();
-        let (names, imp, got, _orig) = eval(&rules, url, rp["source"].as_str().unwrap(), rp["type"].as_str().unwrap(), rp["mode"].as_u64().unwrap_or(0) as usize).unwrap();
+        let (names, imp, got, _orig) = eval(&rules, url, rp["source"].as_str().unwrap(), rp["type"].as_str().unwrap(), rp["mode"].as_u64().unwrap_or(0) as usize, rp["batch"].as_u64().unwrap_or(0) as usize).unwrap();
         let want = if imp { None } else { reference(&names, url) };
         println!("names={:?} important={} impl={:?} spec={:?}", names, imp, got, want);
         if got != want {
@@ -226,7 +347,7 @@ fn main() {
     let mut r = Rng::new(a.seed);
     let mut cs = Cases::new(&a.out, "C14_Model");
     let mut sm = Summary::default();
-    sm.rule = "random rule lists (1-5 removeparam rules over 7 names, optional important/exception/blocking rules) x URLs whose query and fragment are drawn from a key/value grammar (empty values, key-only, '=' in values, '?' and '#' in fragments, non-ASCII); non-trivial = a parameter key equals a matching rule name (rewrite or empty-value keep)".into();
+    sm.rule = "random rule lists (1-5 removeparam rules over 7 names, optional important/exception/blocking rules) x URLs whose query and fragment are drawn from a key/value grammar (empty values, key-only, '=' in values, '?' and '#' in fragments, non-ASCII); non-trivial = a parameter key equals a matching rule name (rewrite or empty-value keep). DOMAIN LISTS: 400 further rule lists hold 1-3 removeparam rules with domain=d1|..|d4 (2-5 domains of 7, sometimes a.com together with sub.a.com, sometimes one negated entry), pattern-less or with a token-less pattern (indexed once per listed domain when the parameter name gives no token: a, b, q, x, a_b, u-1) or with a tokenised pattern / name (indexed by token), preceded, followed or interleaved by 1-4 rules that sit in the buckets of those domains ($image,domain=.., $script,domain=.., @@$image,domain=.., removeparam rules with one or two domains, rarely $image,important,domain=..); loaded through Engine::from_rules (optimised / plain), Blocker::new + optimize, empty Blocker + add_filter in list order (with and without optimize) and Blocker::new on the leading rules (usually the occupants) + add_filter for the rest; one request per listed domain of a rule as initiator, one from a host below a listed domain, two from unlisted hosts, the query drawn from the rules' parameter names; the per-rule scan (NetworkFilter::matches on a Request built with that source) supplies the names for the unchanged reference".into();
     let n = 2400 * a.scale;
     let mut rules: Vec<String> = vec![];
     for it in 0..n {
@@ -241,12 +362,12 @@ fn main() {
         let mode = r.below(4);
         // mode 3 cannot load $badfilter rules (add_filter rejects them) and F13-style duplicates: keep it to lists without them
         let mode = if mode == 3 && rules.iter().any(|l| l.contains("badfilter")) { 2 } else { mode };
-        let Some((names, imp, got, _hook_orig)) = eval(&rules, &url, &src, ty, mode) else { cs.stat("request_error"); continue };
+        let Some((names, imp, got, _hook_orig)) = eval(&rules, &url, &src, ty, mode, 0) else { cs.stat("request_error"); continue };
         // the specification speaks about the URL the caller passed, not about any internal copy
         let orig = url.clone();
         let want = if imp { None } else { reference(&names, &orig) };
         sm.oracle_evaluations += 1;
-        cs.stat(["mode_engine_optimized", "mode_engine_plain", "mode_blocker_optimize_twice", "mode_add_filter_then_optimize"][mode]);
+        cs.stat(MODES[mode]);
         if url != url.to_ascii_lowercase() || !url.is_ascii() || url.starts_with(' ') || url.contains('@') { cs.stat("url_spelling_not_normal_form"); }
         let desc = json!({"rules": rules, "url": url, "source": src, "type": ty, "mode": mode, "matching_names": names, "important": imp, "impl": got});
         if got != want {
@@ -260,6 +381,66 @@ fn main() {
             cbool(imp), cstrs(&names), hxs(&orig), copt(&got, |s| hxs(s))
         );
         cs.case(expr, desc, key_hit);
+    }
+    // removeparam rules with domain=d1|d2|.. (pattern-less and patterned), loaded in batch and through
+    // add_filter after rules that already sit in the buckets of those domains; initiators from every
+    // listed domain, a subdomain of one, and an unlisted one
+    for _ in 0..(400 * a.scale) {
+        let dc = gen_domain_case(&mut r);
+        let rules = dc.rules.clone();
+        cs.stat("domain_dispatch_rule_lists");
+        cs.stat(dc.order);
+        for l in &rules {
+            if let Some(f) = implrun::net::parse_net(l) {
+                use adblock::filters::network::NetworkFilterMaskHelper;
+                if f.is_removeparam() && has_domain_list(l) {
+                    cs.stat(if f.get_tokens().len() > 1 { "multi_domain_removeparam_rule_indexed_once_per_domain" } else { "multi_domain_removeparam_rule_indexed_by_token" });
+                }
+            } else {
+                cs.stat("domain_dispatch_rule_not_parsed");
+            }
+        }
+        RULE_NAMES.with(|n| *n.borrow_mut() = rules.iter().filter_map(|l| l.split("removeparam=").nth(1)).map(|x| x.split(',').next().unwrap_or("").to_string()).collect());
+        RULE_BASE.with(|x| *x.borrow_mut() = None);
+        // initiators: every listed domain of one rule under test, a host below a listed domain, an unlisted host
+        let ds = dc.listed[r.below(dc.listed.len())].clone();
+        let mut sources: Vec<(String, &'static str)> = ds.iter().map(|d| (format!("https://{}/page", d), "source_is_listed_domain")).collect();
+        sources.push((format!("https://www.{}/", ds[r.below(ds.len())]), "source_is_below_listed_domain"));
+        let unlisted: Vec<&&str> = DDOMS.iter().filter(|d| !dc.listed.iter().flatten().any(|x| x == **d || d.ends_with(&format!(".{}", x)))).collect();
+        sources.push((format!("https://{}/", if unlisted.is_empty() { "unlisted.org" } else { *unlisted[r.below(unlisted.len())] }), "source_is_unlisted"));
+        sources.push(("https://unlisted.org/p".to_string(), "source_is_unlisted"));
+        for (src, kind) in sources {
+            let url = gen_domain_url(&mut r);
+            let ty = r.pick(&["document", "xhr", "script", "image", "subdocument"]);
+            let mode = r.pick(&[0usize, 1, 2, 3, 4, 4, 5, 5]);
+            // mode 5: the occupants (or whatever comes first in the chosen order) in batch, the rest at run time
+            let batch = if r.chance(2, 3) { dc.occupants.min(rules.len()) } else { r.below(rules.len() + 1) };
+            let Some((names, imp, got, _)) = eval(&rules, &url, &src, ty, mode, batch) else { cs.stat("request_error"); continue };
+            let want = if imp { None } else { reference(&names, &url) };
+            sm.oracle_evaluations += 1;
+            cs.stat("domain_dispatch_requests");
+            cs.stat(MODES[mode]);
+            cs.stat(kind);
+            let desc = json!({"rules": rules, "url": url, "source": src, "type": ty, "mode": mode, "batch": batch, "order": dc.order, "matching_names": names, "important": imp, "impl": got});
+            if got != want {
+                sm.failure(None, &format!("rewritten_url {:?} but the specification gives {:?} (removeparam rules with domain lists, loading mode {} batch {})", got, want, mode, batch), desc.clone());
+            }
+            // does a rule with a domain list match this initiator (per-rule scan)
+            let multi = rules.iter().filter_map(|l| implrun::net::parse_net(l).map(|f| (l, f))).any(|(l, f)| {
+                use adblock::filters::network::NetworkFilterMaskHelper;
+                f.is_removeparam() && has_domain_list(l) && Request::new(&url, &src, ty).map_or(false, |q| implrun::net::rule_matches(&f, &q))
+            });
+            if multi { cs.stat("multi_domain_removeparam_rule_matches") }
+            cs.stat(if got.is_some() { "rewritten" } else if names.is_empty() { "no_matching_rule" } else { "matching_rule_no_rewrite" });
+            if got.is_some() && multi { cs.stat("rewritten_with_multi_domain_rule_matching") }
+            if imp { cs.stat("important") }
+            let key_hit = names.iter().any(|nm| url.contains(&format!("{}=", nm)));
+            cs.case(
+                format!("ostr_eqb (rewritten_url {} {} {}) {}", cbool(imp), cstrs(&names), hxs(&url), copt(&got, |s| hxs(s))),
+                desc,
+                key_hit,
+            );
+        }
     }
     cs.finish();
     sm.write(&a.out, &cs);
